@@ -1273,11 +1273,14 @@ Definition faithful (pc : pclass) : Prop :=
   forall k v, In (k, v) (pc_declared pc) ->
     get k (pc_instance pc) = Some v /\ get k (pc_asdict pc) = Some v.
 
+Lemma faithful_of_Forall : forall pc,
+  Forall (fun kv => get (fst kv) (pc_instance pc) = Some (snd kv) /\ get (fst kv) (pc_asdict pc) = Some (snd kv)) (pc_declared pc) ->
+  faithful pc.
+Proof. intros pc F k v H. rewrite Forall_forall in F. exact (F (k, v) H). Qed.
+
 Ltac solve_in_table :=
-  let k := fresh "k" in let v := fresh "v" in let H := fresh "H" in
-  intros k v H; cbn [In pc_declared] in H;
-  repeat (destruct H as [H|H]; [inversion H; subst; split; vm_compute; reflexivity|]);
-  contradiction.
+  apply faithful_of_Forall; cbn [pc_declared default_params];
+  repeat (constructor; [split; vm_compute; reflexivity|]); constructor.
 
 Lemma presets_faithful : Forall faithful presets /\ faithful default_params.
 Proof. split; [unfold presets; repeat (constructor; [solve_in_table|]); constructor|solve_in_table]. Qed.
@@ -1304,11 +1307,15 @@ Definition frozen_hashable (pc : pclass) : Prop :=
   pc_hash_ok pc = true /\ Forall (fun kb => snd kb = true) (pc_frozen pc) /\
   (forall k, In k default_field_names -> In (k, true) (pc_frozen pc)) /\
   map fst (pc_instance pc) = default_field_names.
+Lemma in_frozen_b : forall k l, existsb (fun kb => String.eqb (fst kb) k && snd kb) l = true -> In (k, true) l.
+Proof.
+  intros k l H. apply existsb_exists in H. destruct H as [[k' b] [Hin Hb]]. simpl in Hb.
+  apply andb_true_iff in Hb. destruct Hb as [E Hb]. apply String.eqb_eq in E. subst. exact Hin.
+Qed.
 Ltac solve_frozen :=
   split; [reflexivity|]; split; [repeat constructor|]; split;
   [ let k := fresh "k" in let H := fresh "H" in
-    intros k H; cbn [In default_field_names] in H;
-    repeat (destruct H as [H|H]; [subst k; cbn; repeat (first [left; reflexivity|right])|]); contradiction
+    intros k H; apply in_frozen_b; revert k H; apply forallb_forall; vm_compute; reflexivity
   | reflexivity ].
 Lemma defaults_frozen_hashable : frozen_hashable default_params /\ Forall frozen_hashable presets.
 Proof. split; [solve_frozen|unfold presets; repeat (constructor; [solve_frozen|]); constructor]. Qed.
